@@ -1,9 +1,25 @@
 (* C15 -- Shipped problems' transitions and rewards match the documented dynamics.
    Age classes: position 0 = youngest ... last = oldest. *)
 From Coq Require Import ZArith QArith List Bool.
-From MdpaxV Require Import Model.ListUtil Model.Problems Proofs.C15P Proofs.C14P.
+From MdpaxV Require Import Model.ListUtil Model.Problems Model.ProblemOps Proofs.C15P Proofs.C14P Proofs.GenDeMoorP.
+From MdpaxGen Require Import GenDeMoor.
 Import ListNotations.
 Open Scope Z_scope.
+
+(* TIE BY TRANSLATION (De Moor): gen/GenDeMoor.v is regenerated on every run from the problem's transition, issuing functions,
+   component lookups, cost vector and issuing-policy choice.  For every lead time, useful life, issuing policy, cost vector,
+   state of the documented length, order and demand it IS the model below: same successor, same reward - so the
+   conservation, pipeline/ageing and issuing theorems of this file are theorems about the source. *)
+Theorem generated_demoor_transition_is_the_modelled_one : forall (L m : nat) (fifo : bool) (c_order c_short c_waste c_hold : Q) state q d,
+  length state = (L - 1 + m)%nat ->
+  fst (gen_transition L m fifo c_order c_short c_waste c_hold state [q] [d]) = dm_next L m fifo state q d /\
+  (snd (gen_transition L m fifo c_order c_short c_waste c_hold state [q] [d]) == dm_reward L m fifo c_order c_short c_waste c_hold state q d)%Q.
+Proof. exact gen_transition_eq. Qed.
+Print Assumptions generated_demoor_transition_is_the_modelled_one.
+Theorem generated_issuing_is_the_modelled_issuing : forall stock d,
+  gen_issue_fifo stock d = issue_fifo stock d /\ gen_issue_lifo stock d = issue_lifo stock d.
+Proof. exact (fun stock d => conj (gen_issue_fifo_eq stock d) (gen_issue_lifo_eq stock d)). Qed.
+Print Assumptions generated_issuing_is_the_modelled_issuing.
 
 (* issuing: total issued = min(demand, total stock); nothing is created; for both policies *)
 Theorem issue_total : forall stock d, 0 <= d -> Forall (fun x => 0 <= x) stock ->
